@@ -15,6 +15,16 @@ def gen(rng, tier, info):
     for pc in pcs:
         pc["nontrivial"] = pc["rst"] or "unsupported" in pc["tags"]
     cases = [vlib.pcase(pc) for pc in pcs]
+    # a failing reset pin: set_low (k = 0) or set_high (k = 1) fails -> InitError::ResetPin, and nothing may reach the bus
+    for pc in pcs[:: max(1, len(pcs) // (120 if tier == "quick" else 1200))]:
+        if not pc["rst"]:
+            continue
+        for k in (0, 1):
+            q = dict(pc)
+            q["init_fail"] = k
+            q["tags"] = ["reset-pin-fault", "k=%d" % k]
+            q["nontrivial"] = True
+            cases.append(vlib.pcase(q))
     # programs after init: no reset-pin event may appear in any op trace (checked by the exact correspondence)
     for _ in range(60 if tier == "quick" else 600):
         pc, m, lw, lh, cmax = drawgen.config(rng, info, ifaces=(0, 1, 7))
